@@ -10,7 +10,8 @@ func parseMediaType(contentType string) string {
 	if i < 0 {
 		return contentType
 	}
-	return contentType[:i]
+	// (optional whitespace is allowed before the ";" of a parameter, RFC 7231 section 3.1.1.1)
+	return strings.TrimSpace(contentType[:i])
 }
 
 func isNilValue(value any) bool {
